@@ -13,6 +13,7 @@ import (
 	"pgregory.net/rapid"
 
 	"github.com/MichaelMure/git-bug/entities/bug"
+	"github.com/MichaelMure/git-bug/entities/identity"
 	"github.com/MichaelMure/git-bug/entity"
 	"github.com/MichaelMure/git-bug/repository"
 
@@ -638,7 +639,9 @@ func runC03B(tb report.TB, rep *report.Reporter, c craftCase) {
 	case "refuse":
 		if rerr == nil {
 			rep.Fail(tb, "C03/crafted/bad-history-ordered/"+c.Defect, fmt.Sprintf("a history with defect %q was read and ordered: %v", c.Defect, got), c)
+			return
 		}
+		refusedMerge(tb, rep, c)
 		return
 	case "either":
 		return
@@ -671,6 +674,82 @@ func runC03B(tb report.TB, rep *report.Reporter, c craftCase) {
 	}
 	// several refs listed in any order: ReadAll over the mock gives the same per-bug order
 	sort.Strings(mgot)
+}
+
+// refusedMerge: the refused history is the local one and the remote holds another branch of the same bug. The merge
+// has to refuse it like a read does: nothing ordered, the local reference where it was, and the clocks of the
+// repository no further than what the (valid) remote branch holds. Fresh in-memory backend, clocks at their start.
+func refusedMerge(tb report.TB, rep *report.Reporter, c craftCase) {
+	mock := repository.NewMockRepo()
+	mAuthors := craftAuthors(mock)
+	mb, err := buildCraft(mock, mAuthors, c, "refs/bugs/")
+	if err != nil {
+		tb.Fatalf("harness: craft on mock: %v", err)
+	}
+	d, err := ondisk.ReadDAGAt(mock, mb.head)
+	if err != nil {
+		return
+	}
+	roots := d.Roots()
+	if len(roots) != 1 || roots[0] == mb.head {
+		return
+	}
+	root := d.Packs[roots[0]]
+	if !root.HasEdit || root.EditClock == 0 || root.EditClock > 1<<40 {
+		return
+	}
+	sibling, err := ondisk.WritePack(mock, ondisk.PackSpec{OpsBlob: ondisk.OpsBlob(mAuthors[0], []json.RawMessage{craftOp(c.Seed, 7777, false)}),
+		Version: "4", EditClock: strconv.FormatUint(root.EditClock+1, 10), Parents: []string{root.Commit}})
+	if err != nil {
+		tb.Fatalf("harness: %v", err)
+	}
+	if err := mock.UpdateRef("refs/remotes/origin/bugs/"+mb.bugId, repository.Hash(sibling)); err != nil {
+		tb.Fatalf("harness: %v", err)
+	}
+	author, err := identity.ReadLocal(mock, entity.Id(mAuthors[0]))
+	if err != nil {
+		tb.Fatalf("harness: %v", err)
+	}
+	before := map[string]uint64{}
+	if cl, err := mock.AllClocks(); err == nil {
+		for n, x := range cl {
+			before[n] = uint64(x.Time())
+		}
+	}
+	rep.Class("refused-local-history-merged-with-a-remote-branch", 1)
+	for res := range bug.MergeAll(mock, Resolvers(mock), "origin", author) {
+		if string(res.Id) != mb.bugId {
+			continue
+		}
+		if res.Status != entity.MergeStatusError && res.Status != entity.MergeStatusInvalid {
+			if rep.Fail(tb, "C03/crafted/refused-history-merged/"+c.Defect, fmt.Sprintf("local history with defect %q, merge with a remote branch reports %v", c.Defect, res), c) {
+				return
+			}
+		}
+	}
+	if h, err := mock.ResolveRef(mb.ref); err != nil || string(h) != mb.head {
+		if rep.Fail(tb, "C03/crafted/refused-merge-moved-the-reference", fmt.Sprintf("defect %q: local reference %s -> %s (%v)", c.Defect, mb.head, h, err), c) {
+			return
+		}
+	}
+	legal := map[string]uint64{"bugs-edit": root.EditClock + 1, "bugs-create": root.CreateClock}
+	if cl, err := mock.AllClocks(); err == nil {
+		for n, x := range cl {
+			allowed := before[n]
+			if legal[n] > allowed {
+				allowed = legal[n]
+			}
+			if allowed < 1 {
+				allowed = 1
+			}
+			if uint64(x.Time()) > allowed {
+				if rep.Fail(tb, "C03/crafted/refused-history-moved-the-clocks", fmt.Sprintf("defect %q: the local history is refused, the remote branch holds edit time %d and creation time %d, yet after the merge clock %s is at %d (was %d)",
+					c.Defect, root.EditClock+1, root.CreateClock, n, x.Time(), before[n]), c) {
+					return
+				}
+			}
+		}
+	}
 }
 
 func TestC03Crafted(t *testing.T) {
